@@ -17,9 +17,9 @@ def subject(classes, cap_max=4):
         if cls == "Buffer":
             s["delay_kind"] = ["const", "callable", "generator"][dk % 3]
             if s["delay_kind"] == "const":
-                s["delay"] = [0, 0.5, 1, 1.3, 2][d_ix % 5]
+                s["delay"] = [0, 0.5, 1, 1.3, 2, 1.0 / 3.0, 2 ** 0.5][d_ix % 7]
             else:
-                s["delay"] = [[0, 0.5, 1, 1.3, 2, 0.7][x % 6] for x in dlist] or [1]
+                s["delay"] = [[0, 0.5, 1.0 / 3.0, 1.3, 2 ** 0.5, 0.7][x % 6] for x in dlist] or [1]
         if cls in ("FleetStore", "Fleet"):
             s["delay"] = [0.5, 1, 3, 1.3, 2][d_ix % 5]
             s["transit"] = [0, 0.5, 1, 2, 0.3][tr_ix % 5]
@@ -36,6 +36,8 @@ def subject(classes, cap_max=4):
                      (5, 2, 1), (7, 3, 2), (2.5, 1, 1), (3, 0.7, 1)]
             L, il, v = geoms[g_ix % len(geoms)]
             s["geometry"] = {"L": L, "il": il, "v": v, "acc": acc}
+        if trig == 1:
+            s["totes"] = True       # the flow items are containers that are empty at the moment (len() == 0, i.e. falsy objects)
         if trig == 2 or (trig == 3 and s.get("mode") == "LIFO"):
             s["pallets"] = True     # the flow items of this history are (empty) pallets instead of plain items
         return s
@@ -133,7 +135,8 @@ def segment_strategy(weights, macros, extra=0):
                     seg += [["rp", i % 3, 0], ["put", 0, 0, (b >> i) % 3]]
                 seg += [["adv", 7], ["rp", a % 3, 0], ["rp", (a + 1) % 3, 0], ["rp", (a + 2) % 3, 0]]
                 if b % 2 == 0:
-                    seg += [["cp", 0], ["cp", 0]]
+                    # withdraw two of the three (not always the oldest ones), present a withdrawn token again (C07 only)
+                    seg += [["cp", (b // 2) % 3], ["cp", (b // 6) % 2], ["mis", 8, a % 3, -1, 0]]
                 else:
                     seg += [["rg", 0, 0, 0], ["get", 0], ["put", 0, 0, 0], ["rg", 0, 0, 0], ["get", 0], ["put", 0, 0, 0], ["adv", 7]]
                 seg += [["rp", (a + k) % 3, 0], ["rg", 1, 0, 0], ["get", 0], ["settle"], ["put", 0, 0, 0],
@@ -141,7 +144,7 @@ def segment_strategy(weights, macros, extra=0):
                 return seg
             seg = [["rg", a % 3, 0, 0], ["rg", (a + 1) % 3, 0, 0], ["rg", (a + 2) % 3, 0, 0]]
             if b % 2 == 0:
-                seg += [["cg", 0], ["cg", 0]]
+                seg += [["cg", (b // 2) % 3], ["cg", (b // 6) % 2], ["mis", 8, a % 3, -1, 1]]
             else:
                 seg += [["rp", 0, 0], ["put", 0, 0, 0], ["rp", 0, 0], ["put", 0, 0, 0], ["adv", 7], ["get", 0], ["get", 0]]
             seg += [["rg", (a + k) % 3, 0, 0], ["rp", 1, 0], ["put", 0, 0, 0], ["adv", 7], ["get", 0],
